@@ -19,6 +19,14 @@ def run(prop: str, tier: str) -> int:
         from . import props_e2
 
         return getattr(props_e2, "run_" + prop.lower())(tier)
+    if prop == "C09":
+        from . import props_c09
+
+        return props_c09.run(tier)
+    if prop == "C15":
+        from . import props_c15
+
+        return props_c15.run(tier)
     if prop == "C10":
         from . import props_e3
 
